@@ -7,6 +7,10 @@
 #include <occa/types/json.hpp>
 #include <occa/internal/utils/sys.hpp>
 
+#if OCCA_THREAD_SHARABLE_ENABLED
+#include <occa/utils/mutex.hpp>
+#endif
+
 namespace occa {
   //---[ Dtype_T ]------------------------
   dtype_t::dtype_t() :
@@ -249,9 +253,17 @@ namespace occa {
 
   void dtype_t::setFlattenedDtype() const {
     const dtype_t &self_ = self();
+#if OCCA_THREAD_SHARABLE_ENABLED
+    // The flattened dtype is cached lazily in dtypes shared by all threads (e.g. dtype::int_)
+    static mutex_t mutex;
+    mutex.lock();
+#endif
     if (!self_.flatDtype.size()) {
       self_.addFlatDtypes(flatDtype);
     }
+#if OCCA_THREAD_SHARABLE_ENABLED
+    mutex.unlock();
+#endif
   }
 
   void dtype_t::addFlatDtypes(dtypeVector_t &vec) const {
